@@ -9,7 +9,11 @@
     multiply.py intf.py, boolean/between.py, strings/*, counting/count_lines.py count_scans.py,
     lines/line_number? (line_number), variables/pushpop.py.
     Deviation switches: [q_lt] D1 (lt/below/before answer <=), [q_strcmp] D2 (above/below compare as strings
-    unless both operands are Python numbers of the same type: CSV cells, int vs float), [q_pop] D4 (pop drops two).  No proofs here. *)
+    unless both operands are Python numbers of the same type: CSV cells, int vs float), [q_pop] D4 (pop drops two).
+    Bookkeeping functions (counting/tally.py, counting/every.py, counting/counter.py, counting/count.py (bare count()),
+    lines/first.py, math/sum.py, math/subtotal.py) and tracking-keyed assignment "@name.key = e" / read "@name.key"
+    (productions/equality.py, variable.py, CsvPath.get_variable/set_variable with a tracking value) write named
+    variables: plain ones ([vars]) or dictionaries keyed by a tracking value ([dicts], in insertion order).  No proofs here. *)
 From Coq Require Import ZArith List Bool.
 From V Require Import Csv.CsvModel Data.DataModel Scan.ScanModel Run.RunLoop Match.Adjudicate.
 Import ListNotations.
@@ -28,7 +32,9 @@ Inductive sexp :=
   | SLit (s : ustring) | SHdr (i : nat) | SLower (s : sexp) | SUpper (s : sexp) | SConcat (a b : sexp) | SVar (x : Z).
 Inductive nexp :=
   | NLit (z : Z) | NHdr (i : nat) | NInt (e : nexp) | NAdd (a b : nexp) | NSub (a b : nexp) | NMul (a b : nexp)
-  | NVar (x : Z) | NLen (s : sexp) | NCountLines | NCountScans | NLineNo.
+  | NVar (x : Z) | NLen (s : sexp) | NCountLines | NCountScans | NLineNo
+  | NCount                                   (* count(): the matches so far, plus this line *)
+  | NVarK (x : Z) (key : ustring).           (* @x.key *)
 
 Inductive bexp :=
   | BCmp (o : cmpop) (a b : nexp) | BCmpS (o : cmpop) (a b : sexp)
@@ -39,11 +45,26 @@ Inductive bexp :=
   | BIn (s : sexp) (opts : list ustring) | BStarts (s : sexp) (p : ustring)
   | BNot (b : bexp) | BAnd (a b : bexp) | BOr (a b : bexp) | BYes | BNo.
 
-Inductive action := AssignN (x : Z) (e : nexp) | AssignS (x : Z) (e : sexp) | PushN (k : Z) (e : nexp) | PushS (k : Z) (e : sexp) | Pop (x k : Z).
-Inductive comp := CB (b : bexp) | CAct (a : action) | CWhen (b : bexp) (a : action).
+(** bookkeeping functions; [nm] is the id of the variable named by the function's name qualifier; a header argument is a column *)
+Inductive agg :=
+  | Tally (i : nat)                          (* tally(#h): dictionary 100+i, count per value *)
+  | First (nm : Z) (i : nat)                 (* first.nm(#h): line of the first sighting per value; votes on a first sighting *)
+  | Every (nm : Z) (i : nat) (n : Z)         (* every.nm(#h, n): count per value; votes when the count is a multiple of n *)
+  | Counter (nm : Z) (k : Z)                 (* counter.nm(k) *)
+  | Sum (nm : Z) (e : nexp)                  (* sum.nm(e) *)
+  | Subtotal (nm : Z) (i : nat) (e : nexp)   (* subtotal.nm(#h, e) *)
+  | AssignK (nm : Z) (key : ustring) (e : nexp).   (* @nm.key = e *)
+Inductive action := AssignN (x : Z) (e : nexp) | AssignS (x : Z) (e : sexp) | PushN (k : Z) (e : nexp) | PushS (k : Z) (e : sexp) | Pop (x k : Z)
+  | Agg (g : agg).
+Inductive comp := CB (b : bexp) | CAct (a : action) | CWhen (b : bexp) (a : action) | CAgg (g : agg).
 
 (** what the match part owns *)
-Record mx := mkMx { vars : list (Z * value); stacks : list (Z * list value) }.
+Record mx := mkMx { vars : list (Z * value); stacks : list (Z * list value); dicts : list (Z * list (ustring * value)) }.
+
+Fixpoint ulookup {A} (k : ustring) (l : list (ustring * A)) : option A :=
+  match l with [] => None | (k', v) :: r => if ustr_eqb k' k then Some v else ulookup k r end.
+Fixpoint uupdate {A} (k : ustring) (v : A) (l : list (ustring * A)) : list (ustring * A) :=
+  match l with [] => [(k, v)] | (k', v') :: r => if ustr_eqb k' k then (k', v) :: r else (k', v') :: uupdate k v r end.
 
 Fixpoint lookup {A} (k : Z) (l : list (Z * A)) : option A :=
   match l with [] => None | (k', v) :: r => if k' =? k then Some v else lookup k r end.
@@ -89,6 +110,15 @@ Fixpoint str_ltb (a b : ustring) : bool :=      (* Python's str < *)
 Definition lower_c (c : Z) : Z := if (65 <=? c) && (c <=? 90) then c + 32 else c.
 Definition upper_c (c : Z) : Z := if (97 <=? c) && (c <=? 122) then c - 32 else c.
 
+(** counter.nm(...) creates its variable (0) when the csvpath is validated: the matcher is built (and validated) when the
+    first line reaches the match part, so a run that offers no line leaves no such variable *)
+Definition agg_init (g : agg) (vs : list (Z * value)) : list (Z * value) :=
+  match g with Counter nm _ => match lookup nm vs with Some _ => vs | None => vs ++ [(nm, VI 0)] end | _ => vs end.
+Definition comp_init (vs : list (Z * value)) (c : comp) : list (Z * value) :=
+  match c with CAgg g | CAct (Agg g) | CWhen _ (Agg g) => agg_init g vs | _ => vs end.
+Definition init_vars (cs : list comp) (vs : list (Z * value)) : list (Z * value) := fold_left comp_init cs vs.
+
+
 Section Eval.
   Variable q : quirks.
   Variable blanks : list bool.             (* which records of the file are blank (for count_lines) *)
@@ -128,6 +158,11 @@ Section Eval.
     | NCountLines => (data_lines (pln mx s), 1)
     | NCountScans => (scan_count mx s, 1)
     | NLineNo => (pln mx s, 1)
+    | NCount => (match_count mx s + 1, 1)
+    | NVarK vn key => (match (match lookup vn (dicts (x mx s)) with Some d => ulookup key d | None => None end) with
+                      | Some (VI z) => (z, 1) | Some (VF z) => (z, 2)
+                      | Some (VS t) => (match parse_int t with Some z => z | None => 0 end, 0)
+                      | _ => (0, 1) end)
     end.
 
   (** the value an expression has as a Python object: what an assignment stores / push pushes *)
@@ -135,7 +170,8 @@ Section Eval.
     match e with
     | NLit z => VI z
     | NHdr i => match cell l i with Some t => VS t | None => VNone end
-    | NInt _ | NLen _ | NCountLines | NCountScans | NLineNo => VI (fst (neval s l e))
+    | NInt _ | NLen _ | NCountLines | NCountScans | NLineNo | NCount => VI (fst (neval s l e))
+    | NVarK vn key => match (match lookup vn (dicts (x mx s)) with Some d => ulookup key d | None => None end) with Some v => v | None => VNone end
     | NAdd _ _ | NSub _ _ | NMul _ _ => VF (fst (neval s l e))
     | NVar vn => match lookup vn (vars (x mx s)) with Some v => v | None => VNone end
     end.
@@ -187,20 +223,55 @@ Section Eval.
   Definition with_mx (s : cst) (m : mx) : cst :=
     mkRs mx (pln mx s) (scan_count mx s) (match_count mx s) (cur_mc mx s) (adv mx s) (stopped mx s) (frozen mx s) m.
 
+  (** the bookkeeping functions: new state, and the vote the function casts as a component of its own *)
+  Definition hdr_key (l : line ustring) (i : nat) : ustring := match cell l i with Some t => t | None => [] end.
+  Definition dget (m : mx) (nm : Z) (key : ustring) : option value :=
+    match lookup nm (dicts m) with Some d => ulookup key d | None => None end.
+  Definition dset (m : mx) (nm : Z) (key : ustring) (v : value) : mx :=
+    mkMx (vars m) (stacks m) (update nm (uupdate key v (match lookup nm (dicts m) with Some d => d | None => [] end)) (dicts m)).
+  Definition num_of (v : option value) : Z := match v with Some (VI z) | Some (VF z) => z | _ => 0 end.
+
+  Definition do_agg (s : cst) (l : line ustring) (g : agg) : cst * bool :=
+    let m := x mx s in
+    match g with
+    | Tally i =>
+        let key := hdr_key l i in
+        (with_mx s (dset m (100 + Z.of_nat i) key (VI (num_of (dget m (100 + Z.of_nat i) key) + 1))), true)
+    | First nm i =>
+        let key := hdr_key l i in
+        match dget m nm key with
+        | None | Some VNone => (with_mx s (dset m nm key (VI (pln mx s))), true)
+        | Some _ => (s, false)
+        end
+    | Every nm i n =>
+        let key := hdr_key l i in
+        let cnt := num_of (dget m nm key) + 1 in
+        (with_mx s (dset m nm key (VI cnt)), cnt mod n =? 0)
+    | Counter nm k =>
+        (with_mx s (mkMx (update nm (VI (num_of (lookup nm (vars m)) + k)) (vars m)) (stacks m) (dicts m)), AND)
+    | Sum nm e =>
+        (with_mx s (mkMx (update nm (VF (num_of (lookup nm (vars m)) + fst (neval s l e))) (vars m)) (stacks m) (dicts m)), AND)
+    | Subtotal nm i e =>
+        let key := hdr_key l i in
+        (with_mx s (dset m nm key (VF (num_of (dget m nm key) + fst (neval s l e)))), AND)
+    | AssignK nm key e => (with_mx s (dset m nm key (nvalue s l e)), AND)
+    end.
+
   Definition do_action (s : cst) (l : line ustring) (a : action) : cst :=
     let m := x mx s in
     match a with
-    | AssignN v e => with_mx s (mkMx (update v (nvalue s l e) (vars m)) (stacks m))
-    | AssignS v e => with_mx s (mkMx (update v (VS (seval s l e)) (vars m)) (stacks m))
-    | PushN k e => with_mx s (mkMx (vars m) (update k ((match lookup k (stacks m) with Some st => st | None => [] end) ++ [nvalue s l e]) (stacks m)))
-    | PushS k e => with_mx s (mkMx (vars m) (update k ((match lookup k (stacks m) with Some st => st | None => [] end) ++ [VS (seval s l e)]) (stacks m)))
+    | Agg g => fst (do_agg s l g)
+    | AssignN v e => with_mx s (mkMx (update v (nvalue s l e) (vars m)) (stacks m) (dicts m))
+    | AssignS v e => with_mx s (mkMx (update v (VS (seval s l e)) (vars m)) (stacks m) (dicts m))
+    | PushN k e => with_mx s (mkMx (vars m) (update k ((match lookup k (stacks m) with Some st => st | None => [] end) ++ [nvalue s l e]) (stacks m)) (dicts m))
+    | PushS k e => with_mx s (mkMx (vars m) (update k ((match lookup k (stacks m) with Some st => st | None => [] end) ++ [VS (seval s l e)]) (stacks m)) (dicts m))
     | Pop v k =>
         let st := match lookup k (stacks m) with Some st => st | None => [] end in
         match rev st with
-        | [] => with_mx s (mkMx (update v VNone (vars m)) (update k [] (stacks m)))
+        | [] => with_mx s (mkMx (update v VNone (vars m)) (update k [] (stacks m)) (dicts m))
         | top :: _ =>
             let rest := firstn (length st - (if q_pop q then 2 else 1)) st in
-            with_mx s (mkMx (update v top (vars m)) (update k rest (stacks m)))
+            with_mx s (mkMx (update v top (vars m)) (update k rest (stacks m)) (dicts m))
         end
     end.
 
@@ -210,10 +281,14 @@ Section Eval.
     | CB b => (s, beval s l b)
     | CAct a => (do_action s l a, AND)          (* default_match(): neutral for the logic mode *)
     | CWhen b a => if beval s l b then (do_action s l a, true) else (s, false)
+    | CAgg g => do_agg s l g
     end.
 
   (** CsvPath.matches for a CORE program: the adjudication loop over the components *)
-  Definition core_m (cs : list comp) (end_ : option Z) (s : cst) (l : line ustring) : cst * bool :=
+  Definition ensure (cs : list comp) (s : cst) : cst :=     (* a frozen run (the blank final record) creates nothing *)
+    if frozen mx s then s else with_mx s (mkMx (init_vars cs (vars (x mx s))) (stacks (x mx s)) (dicts (x mx s))).
+  Definition core_m (cs : list comp) (end_ : option Z) (s0 : cst) (l : line ustring) : cst * bool :=
+    let s := ensure cs s0 in
     if oeqb end_ (pln mx s) && is_nil l then (s, true)
     else let '(s', b, _) := matches cst comp (stopped mx) (fun _ => false) (fun s => s) (fun c s => eval c s l) (fun s => s) false AND cs s in (s', b).
 End Eval.
@@ -221,4 +296,4 @@ End Eval.
 Definition core_run (q : quirks) (AND cw : bool) (sc0 : sc) (cs : list comp) (recs : list (line ustring)) : ls ustring mx :=
   let blanks := map (fun r => match r with [] => true | _ => false end) recs in
   let c := mkCfg sc0 false (end_of ustring recs) cw true false true in
-  collect ustring mx (core_m q blanks AND cs (end_of ustring recs)) c (mkMx [] []) recs.
+  collect ustring mx (core_m q blanks AND cs (end_of ustring recs)) c (mkMx [] [] []) recs.
